@@ -387,7 +387,7 @@ def run(ctx):
             or classify_known(reg_text(impl[i]), "trans", ids[1], ids[2])
         obj = {"kind": "impl-violation", "statement": STATEMENTS["trans"], "ids": list(ids), "case": cases[i][0],
                "real_output": impl[i], "matched_signature": key}
-        is_known = key is not None and ctx.findings.get(key, {}).get("status") == "known"
+        is_known = key is not None and ctx.findings.get(key, {}).get("status") == "known" and ctx.findings[key].get("property") == ctx.pid
         if is_known:
             known_hits[key] = known_hits.get(key, 0) + 1
             ctx.violation(obj, finding_key=key)
@@ -532,6 +532,9 @@ class RegView:
 
 
 HIGHER = {"partial", "fn", "proc"}
+# provisional key (no id allocated yet): unnamed partial accepted where a named partial is expected;
+# repair proposed in hooks/fix_partial_name.patch
+PARTIAL_NAME_KEY = "C09-partial-name"
 
 
 def classify_known(regtext, stmt, a, b):
@@ -549,7 +552,7 @@ def classify_known(regtext, stmt, a, b):
         if cyc and (rv.max_cycle_depth(both) >= 2 or rv.shared_open(a, b)):
             return "F23"
         if not cyc and "unnamed" in rv.partial_names(ra) and "named" in rv.partial_names(rb):
-            return "F27"
+            return PARTIAL_NAME_KEY
         return None
     if stmt == "overlap":
         return "F25" if kinds & HIGHER else None
@@ -561,7 +564,7 @@ def classify_known(regtext, stmt, a, b):
         if cyc:
             return "F26" if rv.label_clash(a, b) else "F24"
         if "unnamed" in rv.partial_names(ra) and "named" in rv.partial_names(rb):
-            return "F27"
+            return PARTIAL_NAME_KEY
         return None
     return None
 
